@@ -259,6 +259,7 @@ fn elaborate_diff_switches(stmts: Vec<Sp<LowerStmt>>, diff_flag_names: &context:
                 for arg in args {
                     if let LowerArg::DiffSwitch(cases) = &arg.value {
                         switch_props.update(cases);
+                        update_for_nested_diff_switches(&mut switch_props, cases, 0..cases.len());
                     }
                 }
 
@@ -296,6 +297,31 @@ fn elaborate_diff_switches(stmts: Vec<Sp<LowerStmt>>, diff_flag_names: &context:
         }
     }
     out
+}
+
+/// A switch nested inside a case of another switch is only consulted on the difficulties that case applies to,
+/// so its explicit cases within that range are also places where the statement must be split.
+fn update_for_nested_diff_switches(
+    switch_props: &mut ds_util::DiffSwitchMeta,
+    cases: &ds_util::DiffSwitchSlice<Sp<LowerArg>>,
+    applicable: std::ops::Range<usize>,
+) {
+    let explicit = (0..cases.len()).filter(|&i| cases[i].is_some()).collect::<Vec<_>>();
+    for (k, &start) in explicit.iter().enumerate() {
+        let end = explicit.get(k + 1).copied().unwrap_or(cases.len());
+        let range = usize::max(start, applicable.start)..usize::min(end, applicable.end);
+        if let Some(Sp { value: LowerArg::DiffSwitch(inner), .. }) = &cases[start] {
+            switch_props.num_difficulties = switch_props.num_difficulties.max(inner.len());
+            for difficulty in range.clone() {
+                if inner.get(difficulty).map_or(false, |case| case.is_some()) {
+                    switch_props.explicit_difficulties.insert(difficulty as u32);
+                }
+            }
+            if !range.is_empty() {
+                update_for_nested_diff_switches(switch_props, inner, range);
+            }
+        }
+    }
 }
 
 fn select_diff_for_lower_args(args: &[Sp<LowerArg>], difficulty: u32) -> Vec<Sp<LowerArg>> {
